@@ -19,6 +19,11 @@ Leg "seq" (DESIGN 4/C15 a)
     conversation j got in its turn k, ["key", j, k] = the ':'-joined transcript of conversation j up to that reply.
     A conversation may start with a supplied history (user / assistant / context messages), so assistant-role messages can
     spell other conversations' user turns.  Full message histories are passed every turn, as a stateless server would.
+    Conversations carry their own generation options (none at all - then no `options` argument is passed -, `llm_params`, log).
+    Call modes ("api"): "sync" = `generate`, "async" = one `run_until_complete(generate_async)` per turn (both: every call runs
+    in a fresh copy of the caller's context), "onecoro" = all turns of the interleaving are awaited one after the other inside
+    ONE coroutine, as an async handler or batch script does, so whatever a call leaves in the context variables
+    (generation options, streaming handler, explain info) is visible to the next call.
     A harness-side model of the events cache (exact message lists next to their ':'-joined keys) labels the cases and gives the
     *signature* of a cache-key collision: the request found, under the ':'-joined key of one of its proper prefixes, an entry
     that was stored for a different message list.  It is not part of the oracle.
@@ -71,8 +76,9 @@ RULE = (
     "message) or a reference resolved from the isolated replays (the reply / the ':'-joined transcript of an earlier conversation); "
     "optional supplied history: user/assistant/context messages, or (2/3 of the later conversations) the transcript of an earlier "
     "conversation re-spelled - adjacent messages merged with ':', roles swapped, context turned into its JSON text, cut; optional "
-    "log / streaming requests; generate or generate_async; a generated interleaving of all turns on ONE shared instance, full message "
-    "histories passed every turn. Each conversation is also replayed alone on a fresh instance; returned value (message, log, streamed "
+    "per-conversation generation options (none at all, or llm_params temperature/max_tokens and/or log), streaming requests; call "
+    "mode sync generate / one run_until_complete(generate_async) per turn / ALL turns awaited one after the other inside ONE coroutine "
+    "(shared context, ~50%); a generated interleaving of all turns on ONE shared instance, full message histories passed every turn. Each conversation is also replayed alone on a fresh instance; returned value (message, log, streamed "
     "chunks), per-turn prompt multiset and LLM parameters at call start/end must be equal, and the LLM object's parameters must be the "
     "configured ones after every turn. conc: 2-5 conversations (1-2 turns, unique texts) as asyncio tasks on one instance under a "
     "virtual-time loop with generated start offsets, per-call LLM latencies, per-task llm_params (temperature, max_tokens), log / "
@@ -610,9 +616,44 @@ def _resolve_init(init, i, iso):
 
 
 def _conv_options(spec):
-    if not spec.get("log"):
-        return None
-    return {"log": {"activated_rails": True, "llm_calls": True, "colang_history": spec["log"] == "history"}}
+    """Generation options of a conversation of the sequential leg, the same for all its turns; None = the calls are made
+    without any `options` argument."""
+    opts = {}
+    lp = {}
+    if spec.get("temp") is not None:
+        lp["temperature"] = spec["temp"]
+    if spec.get("mt") is not None:
+        lp["max_tokens"] = spec["mt"]
+    if lp:
+        opts["llm_params"] = lp
+    if spec.get("log"):
+        opts["log"] = {"activated_rails": True, "llm_calls": True, "colang_history": spec["log"] == "history"}
+    return opts or None
+
+
+def _drive(gen, api):
+    """Runs a generator that yields (pipe, conv, t, text) requests and is sent the observation of each turn.
+
+    api "sync" / "async": every turn is its own `generate` / `run_until_complete(generate_async)` call, i.e. runs in a fresh
+    copy of the caller's context.  api "onecoro": ALL turns are awaited one after the other inside ONE coroutine, the way an
+    async server handler or a batch script does - they share one context (contextvars set by a call stay visible to the next)."""
+    if api != "onecoro":
+        try:
+            req = next(gen)
+            while True:
+                req = gen.send(turn_sync(*req, api))
+        except StopIteration as e:
+            return e.value
+
+    async def main():
+        try:
+            req = next(gen)
+            while True:
+                req = gen.send(await turn_async(*req))
+        except StopIteration as e:
+            return e.value
+
+    return pipeline.loop().run_until_complete(main())
 
 
 def _seq_isolated(case, problems):
@@ -625,19 +666,23 @@ def _seq_isolated(case, problems):
         iso[i] = rec
         rec["init"] = _resolve_init(spec.get("init", []), i, iso)
         conv = Conv(i, cfg, rec["init"], len(spec["users"]), _conv_options(spec), bool(spec.get("stream")))
-        for t, tspec in enumerate(spec["users"]):
-            text = _resolve_text(tspec, i, t, iso)
-            rec["texts"].append(text)
-            o = turn_sync(pipe, conv, t, text, api)
-            rec["obs"].append(o)
-            prob = pipe.params_problem()
-            if prob and not any(v.kind == _rest_kind(prob.none_added) for v in problems):
-                problems.append(Violation(_rest_kind(prob.none_added), f"[seq/isolated] conversation {i} alone on a fresh instance, after turn {t} (LLM calls {[c['task'] for c in o['calls']]}): {prob}",
-                                          {"leg": "seq", "overlap": False, "sequential": True, "none_added": prob.none_added}))
-            rec["replies"].append(str(o["message"].get("content")) if o["raised"] is None else "a")
-            rec["keys"].append(lossy_key(conv.messages))
-            rec["transcripts"].append(json.loads(json.dumps(conv.messages)))
+        _drive(_seq_isolated_one(i, spec, pipe, conv, rec, iso, problems), api)
     return iso
+
+
+def _seq_isolated_one(i, spec, pipe, conv, rec, iso, problems):
+    for t, tspec in enumerate(spec["users"]):
+        text = _resolve_text(tspec, i, t, iso)
+        rec["texts"].append(text)
+        o = yield (pipe, conv, t, text)
+        rec["obs"].append(o)
+        prob = pipe.params_problem()
+        if prob and not any(v.kind == _rest_kind(prob.none_added) for v in problems):
+            problems.append(Violation(_rest_kind(prob.none_added), f"[seq/isolated] conversation {i} alone on a fresh instance, after turn {t} (LLM calls {[c['task'] for c in o['calls']]}): {prob}",
+                                      {"leg": "seq", "overlap": False, "sequential": True, "none_added": prob.none_added}))
+        rec["replies"].append(str(o["message"].get("content")) if o["raised"] is None else "a")
+        rec["keys"].append(lossy_key(conv.messages))
+        rec["transcripts"].append(json.loads(json.dumps(conv.messages)))
 
 
 def _seq_schedule(case):
@@ -669,15 +714,36 @@ def run_seq(case, problems):
             labels.append("supplied-history")
         if s.get("log"):
             labels.append("log-option")
-        if s.get("stream") and api == "async":
+        if s.get("stream") and api != "sync":
             labels.append("streaming")
+        if s.get("temp") is not None or s.get("mt") is not None:
+            labels.append("llm_params-option")
+    if len({json.dumps(c.options, sort_keys=True) for c in convs}) > 1:
+        labels.append("conversations-with-different-options")
+        if any(c.options is None for c in convs):
+            labels.append("some-conversation-without-options")
     model = CacheModel()
-    nxt = [0] * len(convs)
     unjudged, tainted_convs, diverged = set(), set(), set()
-    nt = False
     sched = _seq_schedule(case)
     switches = sum(1 for a, b in zip(sched, sched[1:]) if a != b)
     labels.append("interleaved" if any(sched[x] != sched[x + 1] and sched[x] in sched[x + 1:] for x in range(len(sched) - 1)) else "back-to-back")
+    state = {"nt": False}
+    _drive(_seq_shared(case, shared, convs, iso, sched, model, labels, problems, unjudged, tainted_convs, diverged, state), api)
+    nt = state["nt"]
+    if unjudged:
+        labels.append("some-conversation-not-judged")
+    labels.append(f"switches={min(switches, 4)}{'+' if switches > 4 else ''}")
+    view = {
+        "leg": "seq", "config": cfg, "llm": case["llm"], "api": api, "schedule": sched,
+        "conversations": [{"supplied_history": iso[i]["init"], "users": iso[i]["texts"], "options": convs[i].options,
+                           "replies": [o["message"].get("content") if o["raised"] is None else o["raised"] for o in convs[i].obs]} for i in range(len(convs))],
+    }
+    return ok(nt=nt, labels=sorted(set(labels)), view=json.loads(json.dumps(view, default=repr)))
+
+
+def _seq_shared(case, shared, convs, iso, sched, model, labels, problems, unjudged, tainted_convs, diverged, state):
+    """All turns of the interleaving on the shared instance (a generator driven by `_drive`)."""
+    nxt = [0] * len(convs)
     for step, i in enumerate(sched):
         conv, t = convs[i], nxt[i]
         nxt[i] += 1
@@ -685,14 +751,14 @@ def run_seq(case, problems):
         M = instance_view(conv.request(text), conv.options)
         hit = model.lookup(i, M)
         where = f"[seq] conversation {i} turn {t} (step {step} of schedule {sched}, request {json.dumps(conv.request(text))[:300]})"
-        o = turn_sync(shared, conv, t, text, api)
+        o = yield (shared, conv, t, text)
         if hit:
             if hit["collision"]:
                 labels.append("lossy-key-collision" + ("" if hit["other"] else "-within-conversation"))
-                nt = nt or hit["other"]
+                state["nt"] = state["nt"] or hit["other"]
             elif hit["other"]:
                 labels.append("identical-prefix-of-other-conversation")
-                nt = True
+                state["nt"] = True
             if hit["foreign"]:
                 labels.append("resumed-foreign-history(not judged)")
                 unjudged.add(i)
@@ -703,7 +769,7 @@ def run_seq(case, problems):
         if o["raised"] is None:
             if model.write(i, M, o["message"], hit):
                 labels.append("key-overwrite")
-                nt = True
+                state["nt"] = True
         else:
             labels.append("generate-raised")
         prob = shared.params_problem()
@@ -731,15 +797,6 @@ def run_seq(case, problems):
                 problems.append(Violation("cache-key-collision", f"{where}: {sentence}. Cache signature: {sig}", detail))
             else:
                 problems.append(Violation("seq-" + what, f"{where}: {sentence}; no cache-key collision involved (harness model of the cache: {hit})", detail))
-    if unjudged:
-        labels.append("some-conversation-not-judged")
-    labels.append(f"switches={min(switches, 4)}{'+' if switches > 4 else ''}")
-    view = {
-        "leg": "seq", "config": cfg, "llm": case["llm"], "api": api, "schedule": sched,
-        "conversations": [{"supplied_history": iso[i]["init"], "users": iso[i]["texts"], "options": convs[i].options,
-                           "replies": [o["message"].get("content") if o["raised"] is None else o["raised"] for o in convs[i].obs]} for i in range(len(convs))],
-    }
-    return ok(nt=nt, labels=sorted(set(labels)), view=json.loads(json.dumps(view, default=repr)))
 
 
 # ------------------------------------------------------------------------------------------------
@@ -1048,11 +1105,13 @@ def _seq_case(draw, llms=None):
                 "users": draw(st.lists(st.lists(_st_part(i), min_size=1, max_size=draw(st.sampled_from([1, 1, 2, 3]))), min_size=1, max_size=3)),
                 "log": draw(st.sampled_from([False, False, False, True, "history"])),
                 "stream": draw(st.sampled_from([False, False, True])),
+                "temp": draw(st.sampled_from([None, None, None, 0.0, 0.2, 0.9])),
+                "mt": draw(st.sampled_from([None, None, None, None, 16])),
             }
         )
     total = sum(len(c["users"]) for c in convs)
     order = draw(st.lists(st.integers(0, n - 1), min_size=total, max_size=total))
-    return {"leg": "seq", "config": cfg, "llm": draw(st.sampled_from(llms or LLMS)), "api": draw(st.sampled_from(["sync", "async"])), "convs": convs, "order": order}
+    return {"leg": "seq", "config": cfg, "llm": draw(st.sampled_from(llms or LLMS)), "api": draw(st.sampled_from(["sync", "async", "onecoro", "onecoro"])), "convs": convs, "order": order}
 
 
 @st.composite
